@@ -6,6 +6,7 @@ sys.path.insert(0, os.path.join(ROOT, 'tools'))
 import props
 ids = [json.loads(l)['id'] for l in open(os.path.join(ROOT, 'properties.jsonl'))]
 checks = []
+TIE = {'C01', 'C02', 'C03', 'C04', 'C05', 'C06', 'C07', 'C08', 'C12', 'C13', 'C14', 'C17', 'C18', 'C19'}
 for pid in ids:
     if pid not in props.REGISTRY or not props.REGISTRY[pid].get('claimed', True):
         continue
@@ -19,7 +20,8 @@ for pid in ids:
         'engine': 'lean4-model+correspondence',
         'level_claimed': {'category': 'proof', 'text': sp['level_text'], 'design_ref': sp.get('design_ref', 'DESIGN.md §7 ' + pid)},
         'level_note': sp['level_note'],
-        'technique': sp.get('technique', 'Lean 4 theorem over a hand-written model + differential correspondence check against the Rust crate'),
+        'technique': sp.get('technique', 'Lean 4 theorem over a hand-written model + differential correspondence check against the Rust crate (request streams with woven call histories)'
+                            + (' + static tie: the model is proved equal (Tie.lean/TieTables.lean) to a translation of the current source regenerated on every run (tools/rs2lean.py)' if pid in TIE else '')),
     })
 na = [{'property_id': pid, 'reason': props.NOT_CLAIMED.get(pid, 'check under construction (no claim yet)')}
       for pid in ids if pid not in [c['property_id'] for c in checks]]
@@ -32,7 +34,7 @@ m = {
               'source_commits': [], 'add_only': True},
     'engines': [{'name': 'lean4-model+correspondence', 'path': 'lean/ harness/ check tools/',
                  'serves_properties': [c['property_id'] for c in checks],
-                 'kind_free_text': 'Lean 4 model (lean/FindVerif/Model), independent spec (lean/FindVerif/Spec), theorems (lean/FindVerif/Theorems), Rust harness calling the real crate in-process, compiled Lean driver comparing model and implementation and evaluating the property predicates on the implementation'}],
+                 'kind_free_text': 'Lean 4 model (lean/FindVerif/Model), independent spec (lean/FindVerif/Spec), theorems (lean/FindVerif/Theorems), translator tools/rs2lean.py regenerating lean/FindVerif/Gen from the Rust source with equality proofs lean/FindVerif/Tie*.lean, Rust harness calling the real crate in-process, compiled Lean driver comparing model and implementation and evaluating the property predicates on the implementation'}],
     'checks': checks,
     'notes': 'see DESIGN.md; known findings in known_findings.json',
     'not_applicable': na,
